@@ -2,6 +2,7 @@
 # tools/regress.sh <prop> : every saved seeded change of the property must be reported (rc=1, with a concrete replay),
 # every saved harmless rewrite should be quiet (rc=0).  Uses the scratch worktree /tmp/seedrepo (VERIF_REPO).
 P=$1
-for d in /verif/seeded/$P-*; do echo -n "seeded $(basename $d): "; NOTEST=1 /verif/tools/try_seed3.sh $P $d reg_$(basename $d) | tail -1 | cut -c1-120; done
-for d in /verif/harmless/$P-*; do [ -d $d ] && /verif/tools/try_ref.sh $P $d; done
-cd /verif && git checkout -q -- evidence && git clean -fdq replays evidence
+V=${VERIF_DIR:-$(cd "$(dirname "$0")/.." && pwd)}
+for d in $V/seeded/$P-*; do echo -n "seeded $(basename $d): "; NOTEST=1 $V/tools/try_seed3.sh $P $d reg_$(basename $d) | tail -1 | cut -c1-120; done
+for d in $V/harmless/$P-*; do [ -d $d ] && $V/tools/try_ref.sh $P $d; done
+cd $V && git checkout -q -- evidence && git clean -fdq replays evidence
